@@ -22,6 +22,7 @@ META = {
     "trusted_base": ["Python list/deque semantics (append/popleft/indexed assignment)"],
     "assumptions": ["capacity >= 1", "TreeStorage is covered by C19"],
 }
+META["explanation"] += ' Also COPY (copy / pickle hooks of every storage keep its state), descriptors that keep a capacity on themselves, DEP-C04 ORIG.'
 MIN_INSTANCES = {"PARALLEL": 5, "COUNT": 5, "OBS": 5, "COPY": 5}
 
 FIFO_ROOT = "IntervalStorage"
